@@ -91,8 +91,31 @@ fn run(case: &mut Case) -> Result<Outcome, String> {
     };
     let tol = 10f64.powf(case.src.f64_in(-12.0, -3.0));
     let budget = 10 * n + 50;
+    case.describe(|| format!("first solver {} n={} kind={} tol={:.3e} A={:?} b={:?} x0={:?}", SOLVERS[solver], n, KINDS[kind], tol, a, b, x0));
+    // every entry point for which this kind of system is well-posed
+    let todo: Vec<usize> = match kind {
+        0 => vec![0, 1, 2, 3, 4],
+        1 => vec![0],
+        _ => vec![1, 2, 3, 4],
+    };
+    let mut judged = 0;
+    let mut last_discard = "not judged";
+    for sv in todo {
+        match one(case, sv, kind, n, &a, &b, &x0, &xstar, sc, tol, budget)? {
+            Outcome::Discard(r) => last_discard = r,
+            _ => judged += 1,
+        }
+    }
+    if judged == 0 {
+        return Ok(Outcome::Discard(last_discard));
+    }
+    Ok(Outcome::Pass)
+}
+
+#[allow(clippy::too_many_arguments)]
+fn one(case: &mut Case, solver: usize, kind: usize, n: usize, a: &D, b: &[f64], x0: &[f64], xstar: &[f64], sc: f64, tol: f64, budget: usize) -> Result<Outcome, String> {
+    let (a, b, x0, xstar) = (a.clone(), b.to_vec(), x0.to_vec(), xstar.to_vec());
     case.class(format!("{} {}", SOLVERS[solver], KINDS[kind]));
-    case.describe(|| format!("{} n={} kind={} tol={:.3e} A={:?} b={:?} x0={:?}", SOLVERS[solver], n, KINDS[kind], tol, a, b, x0));
     // the requested residual must lie above the rounding floor of any residual recurrence
     {
         let nb = norm2(&b);
@@ -169,7 +192,7 @@ impl Prop for C09 {
         "C09"
     }
     fn rule(&self) -> String {
-        "per case one of the five entry points and (4/5) a well-posed system for it: CG on SPD (symmetric strictly diagonally dominant with positive diagonal, slack 1.02..3; B^T B + mu I), \
+        "per case (4/5) a well-posed system and every entry point it is well-posed for (all five on symmetric diagonally dominant positive systems, CG alone on B^T B + mu I, the four non-CG entry points on nonsymmetric diagonally dominant systems): CG on SPD (symmetric strictly diagonally dominant with positive diagonal, slack 1.02..3; B^T B + mu I), \
          BiCG (itol 1 and 2) / BiCGSTAB / QMR on strictly row-diagonally dominant systems (nonsymmetric with positive or mixed-sign diagonal, symmetric positive); order 1..=30 (thorough 1..=60); continuous random values, \
          any sparsity (density 1/8..7/8) and triplet order; right-hand side A x* scaled by 1e-6..1e6 or zero; guess zero / random / exact; tol = 10^[-12,-3]; budget min(10n+50, 3*ref_it+15) where ref_it is the iteration count of the harness's textbook method at tol*1e-3. \
          Judged only when tol*||b||' >= 1e3*eps*(||A||_F*max(||x0||,||x*||)+||b||) (attainable in double precision) and the harness's textbook implementation of the method (BiCG for QMR) converges within 3n+10 iterations at tol*1e-3 and kappa_F <= 1e8 (otherwise discarded and counted): \
@@ -188,7 +211,7 @@ impl Prop for C09 {
         tier.pick(2400, 8200)
     }
     fn random_cases(&self, tier: Tier) -> usize {
-        tier.pick(30_000, 400_000)
+        tier.pick(16_000, 200_000)
     }
     fn run(&self, case: &mut Case) -> Outcome {
         match run(case) {
